@@ -1552,6 +1552,13 @@ def through_planted_link(rec):
     was in one of the LINK_STATES: the escape went through a link that was there before the run"""
     if rec["rstate"] not in LINK_STATES or MAIN_OP[0] != "main":
         return False
+    # … and the walks made a `mkdir` on the name of one of those links that answered EEXIST and went on.  (The caller also requires
+    # that the run agrees call by call with the model of the *current* code: a mutant that, say, drops O_EXCL and writes through
+    # `f -> ../lt_file` differs from it and is reported as an ordinary escape.)
+    names = {hx(rel) for rel, _ in LINK_STATES[rec["rstate"]]}
+    post = split_calls(rec)[2]
+    if not any(t.startswith("mkdir:") and t.split(":")[1] in names and r == "EEXIST" and i + 1 < len(post) for i, (t, r) in enumerate(post)):
+        return False
     ok = tuple(rec["jail"] + "/" + x for x in ("lt_dir", "lt_file"))
     return all(any(c["path"] == o or c["path"].startswith(o + "/") for o in ok) for c in rec["changed"])
 
@@ -1646,7 +1653,7 @@ def judge(ctx, recs, models, plans, stats):
         if rec["skips"] or st != "ok" or any(r != "0" for _, r in rec["calls"][1:]) or rec["fault"] is not None:
             stats["nontrivial"].add(key)
         # 1. the specification, on the implementation: nothing outside R changed
-        if rec["changed"] and through_planted_link(rec):
+        if rec["changed"] and through_planted_link(rec) and not (compare(rec, m) + compare_state(rec, m)):
             # the recorded defect: create_node tolerates EEXIST from mkdir without looking at what exists, so a symbolic link that
             # was below R before the run is walked through.  One key for the defect, not one per image; the run is still
             # compared with the model (which follows the link the same way) below.
